@@ -31,6 +31,8 @@ NOTE_FORMS = {
     "stamped": [f"o P2 240412 {MZ} moved stamped todo", "  * with a bullet"],
     # the item ends with an indented whitespace-only line (an editor's auto-indent): that line
     # is part of the item and leaves the source with it; it need not arrive in the destination
+    "done": [f"x {MZ} moved note that is done already"],
+    "cancelled-stamped": [f"~ P1 240412 {MZ} moved cancelled todo", "  * with a bullet"],
     "trailing-ws": [f"- {MZ} note ending in a blank-looking line", "  continued", "   "],
 }
 POSITIONS = ["first", "middle", "last", "only-in-block", "under-h1", "under-h2", "before-comment", "before-header"]
